@@ -75,14 +75,29 @@ package httpscenario
 //@ ensures iff(resp != nil && old(resp.Body) == nil, resp != nil && resp.Body == nil) && sample.fields[9] == old(sample.fields)[9] && sample.fields[8] == old(sample.fields)[8]
 //@ modifies sample.fields, resp.Body
 
+// Debug/answer logging never faults on a response and leaves gun, request and response alone.
 //@ func (g *ScenarioGun) verboseLogging
-//@ trusted
+//@ props C19
+//@ nilsafe
+//@ env [net-http-attaches-the-request-to-its-response] imp(resp != nil, resp.Request != nil && resp.Request.URL != nil)
+//@ env [a-gun-has-its-logger] g.base != nil && g.base.Log != nil
 //@ modifies nothing
 //@ func (g *ScenarioGun) answReqRespLogging
-//@ trusted
+//@ props C19
+//@ nilsafe
+//@ requires resp != nil
+//@ env [a-gun-with-answer-logging-has-its-answer-logger] g.base != nil && g.base.AnswLog != nil
+//@ modifies nothing
+//@ func (g *ScenarioGun) answLogging
+//@ props C19
+//@ nilsafe
+//@ requires resp != nil
+//@ env [a-gun-with-answer-logging-has-its-answer-logger] g.base != nil && g.base.AnswLog != nil
 //@ modifies nothing
 //@ func (g *ScenarioGun) buildLogID
-//@ trusted
+//@ props C19 C10
+//@ nilsafe
+//@ requires idBuilder != nil
 //@ modifies *idBuilder
 
 // One step: preprocess, render, send, postprocess in the listed order; a failure anywhere ends the step with an error and
